@@ -4,6 +4,9 @@
 use vstd::prelude::*;
 use std::alloc::Allocator;
 use std::ops::Range;
+use similar::DiffOp;
+
+//@include prelude/diff_similar.rs
 
 verus! {
 
@@ -185,6 +188,58 @@ proof fn lemma_sunk(base: Seq<Range<usize>>, fin: Seq<Range<usize>>, i: int)
     proof {
         lemma_sunk(base, ranges@, i as int);
     }
+//@end
+
+/// position in the new string before op k (the new-side cursor of the tiling)
+spec fn cursor(ops: Seq<DiffOp>, k: int) -> int {
+    if 0 <= k < ops.len() { similar::op_new_index(ops[k]) }
+    else if ops.len() == 0 { 0 }
+    else { similar::op_new_index(ops.last()) + similar::op_new_len(ops.last()) }
+}
+
+/// What the callers in `line_diff` guarantee (`new` starts at or after the start of the last range)
+/// implies D-c's precondition.
+proof fn lemma_caller_order(ranges: Seq<Range<usize>>, new: Range<usize>)
+    requires
+        ranges_wf(ranges),
+        ranges.len() > 0 ==> new.start >= ranges.last().start,
+    ensures
+        forall|i: int| 0 <= i < ranges.len() - 1 ==> apart(#[trigger] ranges[i], new),
+{
+}
+
+//@unit id=Dd file=src/diff_parser.rs fn=line_diff ret=r
+//@contract
+    ensures
+        ranges_wf(r@), // [Dd.post.ranges_wf]
+//@edit rule=ghost before=<<for op in diff.ops()>>
+    let ghost ops = diff.spec_ops();
+    let ghost n = new@.len() as int;
+    let ghost bmax: int = if new.len() == 0 { 0 } else { new.len() - 1 };
+//@edit rule=E15 find=<<for op in diff.ops()>>
+for op in it: diff.ops()
+        invariant
+            ops == diff.spec_ops(),
+            n == new@.len(),
+            n <= new.len(),
+            bmax == (if new.len() == 0 { 0 } else { new.len() - 1 }),
+            similar::ops_tile_new(ops, n),
+            ranges_wf(result@), // [Dd.inv.ranges_wf]
+            forall|x: int| covered(result@, x) ==> x <= cursor(ops, it.index@ as int) && x <= bmax, // [Dd.inv.covered_up_to_cursor]
+            0 <= it.index@ <= ops.len(),
+//@edit rule=ghost before=<<match op {>>
+        let ghost k = it.index@ as int;
+        let ghost res0 = result@;
+        proof {
+            assert(*op == ops[k]);
+            assert(similar::op_new_index(ops[k]) + similar::op_new_len(ops[k]) <= n);
+            assert(cursor(ops, k + 1) == similar::op_new_index(ops[k]) + similar::op_new_len(ops[k]));
+            if res0.len() > 0 {
+                // the first column of the last range is covered, hence at most the cursor
+                assert(covered(res0, res0.last().start as int));
+            }
+            assert forall|i: int| 0 <= i < res0.len() - 1 implies (#[trigger] res0[i]).end < res0.last().start by {}
+        }
 //@end
 
 } // verus!
